@@ -1,5 +1,6 @@
 """C06 -- read extraction: the matrix fed to inference is exactly the filtered pileup (pysam behind contract stubs)."""
 import itertools
+import os
 
 import numpy as rnp
 import z3
@@ -11,13 +12,14 @@ TITLE = "extract_read_variants keeps exactly the alignments of the sample's read
 TECHNIQUE = 'symbolic execution of extract_read_variants against pysam contract stubs; expected matrix as a z3 fold over all alignment variables; witnesses replayed on synthetic BAMs through real pysam'
 ENCODED = ["mchap.io.bam.encode_read_distributions", "mchap.encoding.integer.transcode.as_probabilistic", "mchap.io.loci.Locus.set_sequence", "mchap.io.loci.Locus.set_variants", "mchap.io.loci._merge_snps", "mchap.io.loci.Locus.validate_reference_alleles",
            "mchap.io.bam.extract_read_variants", "mchap.io.bam.encode_read_alleles", "mchap.io.bam.encode_read_distributions",
-           "mchap.application.baseclass.program.encode_sample_reads", "mchap.encoding.character.transcode.as_allelic", "mchap.encoding.character.sequence.depth",
+           "mchap.application.baseclass.program.encode_sample_reads", "mchap.application.arguments.collect_default_program_arguments", "mchap.application.assemble.program.cli",
+           "mchap.application.call.program.cli", "mchap.application.call_exact.program.cli", "mchap.application.call_pedigree.program.cli", "mchap.encoding.character.transcode.as_allelic", "mchap.encoding.character.sequence.depth",
            "mchap.encoding.integer.transcode.as_probabilistic", "mchap.mset.unique_counts"]
 STUBS = ["pysam.AlignmentFile / AlignedSegment -> contract stubs: header['RG'] list, fetch() yields k alignments whose flags, MAPQ, read group, read name, per-site 'aligned?' and base are symbolic; get_aligned_pairs(matches_only=True, with_seq=True) yields one (read_pos, ref_pos, ref_base) per aligned site",
          "everything inside pysam/htslib (BAM/CRAM decoding, CIGAR -> aligned pairs, fetch overlap, clipping) is outside the claim"]
 ASSUMES = ["the expected matrix is a z3 term over ALL read variables (fold over alignments in file order); the obligation is pc => expected == observed, so attributes the code never looked at are universally quantified",
            "bases range over {REF, ALT, N}; read names over 2 values; 3 read groups (two for sample A, one for sample B)"]
-BOUNDS = {"quick": "read probabilities: every call pattern of 2 reads x 2 SNVs (2 and 3 alleles) with a symbolic error rate; SNV file vs FASTA: 2 records (thorough 3) at 2 positions, possibly sharing one, REF in {A,C}, any ALT, FASTA bases in {A,C}, sequence-first and variants-first; 2 alignments x 1 SNV, read groups {rg0->A, rg2->B}, bases {REF, ALT} (thorough: 3 read groups, bases {REF, ALT, N}), four combinations of the keep flags (thorough: all eight), MAPQ and threshold symbolic in 0..2, id field SM and ID, either sample; pool of two samples; reference mismatch injected at any aligned site",
+BOUNDS = {"quick": "read probabilities: every call pattern of 2 reads x 2 SNVs (2 and 3 alleles) with a symbolic error rate; SNV file vs FASTA: 2 records (thorough 3) at 2 positions, possibly sharing one, REF in {A,C}, any ALT, FASTA bases in {A,C}, sequence-first and variants-first; 2 alignments x 1 SNV, read groups {rg0->A, rg2->B}, bases {REF, ALT} (thorough: 3 read groups, bases {REF, ALT, N}), four combinations of the keep flags (thorough: all eight), MAPQ and threshold symbolic in 0..2, id field SM and ID, either sample; pool of two samples; reference mismatch injected at any aligned site; command line -> extract_read_variants / encode_read_distributions for assemble, call, call-exact, call-pedigree: 48 option settings each (3 keep flags x 3 mapping qualities x {defaults, read-group field ID + explicit error rate + phred scores}) on the repository's test files, arguments bound through the callees' own signatures",
           "thorough": "2 alignments x 2 SNVs (all eight keep-flag settings, each sample / read-group id, reference mismatch injected) and 3 alignments x 1 SNV (keep flags all on / all off, mismatch); SNV file vs FASTA with 3 records; shared-file layouts with 3 alignments"}
 OUTSIDE = "htslib decoding, CIGAR handling, fetch overlap semantics, CRAM reference lookup (pysam); phred-based probabilities (float)"
 TASKS_PER_CHILD = 2
@@ -37,6 +39,8 @@ def configs(tier):
         out.append(dict(group="encode", k=2, ns=1, small=True, layout="two"))
         out.append(dict(group="locus-ref", n_rec=2))
         out.append(dict(group="dists"))
+        for prog in CLI_PROGS:
+            out.append(dict(group="cli-options", prog=prog))
         return out
     for k, ns in [(2, 2), (3, 1)]:
         for idf in ("SM", "ID"):
@@ -52,7 +56,129 @@ def configs(tier):
     out.append(dict(group="locus-ref", n_rec=2))
     out.append(dict(group="locus-ref", n_rec=3))
     out.append(dict(group="dists"))
+    for prog in CLI_PROGS:
+        out.append(dict(group="cli-options", prog=prog))
     return out
+
+
+# ------------------------------------------------------------------ command line -> program -> extract_read_variants
+CLI_PROGS = {"assemble": "mchap.application.assemble", "call": "mchap.application.call", "call-exact": "mchap.application.call_exact",
+             "call-pedigree": "mchap.application.call_pedigree"}
+CLI_MQ = [None, 7, 33]
+
+
+def _cli_drive(load, progname, choice):
+    """program.cli(<command line>) on the repository's own test files, then encode_sample_reads of the first locus with
+    extract_read_variants / encode_read_distributions replaced by recorders bound through their REAL signatures.  The option
+    settings are drawn through `choice` (solver / witness).  Returns (expected, extract calls, distribution calls, command)."""
+    import contextlib
+    import inspect
+    import io
+    import os
+
+    data = os.path.join(E.repo_root(), "mchap", "tests", "test_io", "data")
+    mod = load(CLI_PROGS[progname])
+    bc = load("mchap.application.baseclass")
+    keep = {k: int(choice("keep_" + k, 0, 1)) for k in ("duplicate", "qcfail", "supplementary")}
+    mq = CLI_MQ[int(choice("mq", 0, len(CLI_MQ) - 1))]
+    extras = int(choice("extras", 0, 1))  # read-group field ID, explicit base error rate, phred scores used
+    bams = [os.path.join(data, "simple.sample%d.bam" % i) for i in (1, 2, 3)]
+    cmd = ["mchap", progname, "--bam"] + bams + ["--ploidy", "4"]
+    if progname == "assemble":
+        cmd += ["--targets", os.path.join(data, "simple.bed.gz"), "--variants", os.path.join(data, "simple.vcf.gz"), "--reference", os.path.join(data, "simple.fasta")]
+    else:
+        cmd += ["--haplotypes", os.path.join(data, "simple.output.assemble.vcf")]
+    if progname == "call-pedigree":
+        cmd += ["--sample-parents", os.path.join(data, "simple.pedigree.132.txt")]
+    if mq is not None:
+        cmd += ["--mapping-quality", str(mq)]
+    for k in keep:
+        if keep[k]:
+            cmd.append("--keep-%s-reads" % k)
+    if extras:
+        cmd += ["--base-error-rate", "0.125", "--use-base-phred-scores"]
+        if progname != "call-pedigree":  # the pedigree file names samples by their SM tag
+            cmd += ["--read-group-field", "ID"]
+    want = dict(min_quality=20 if mq is None else mq, skip_duplicates=not keep["duplicate"], skip_qcfail=not keep["qcfail"], skip_supplementary=not keep["supplementary"],
+                id="ID" if (extras and progname != "call-pedigree") else "SM", error_rate=0.125 if extras else 0.0024, quals_used=bool(extras))
+    store = bc.__dict__.setdefault("__c06_orig__", {})
+    for n in ("extract_read_variants", "encode_read_distributions"):
+        store.setdefault(n, getattr(bc, n))
+    sig_x, sig_d = inspect.signature(store["extract_read_variants"]), inspect.signature(store["encode_read_distributions"])
+    xcalls, dcalls = [], []
+
+    def rec_x(*a, **k):
+        b = sig_x.bind(*a, **k)
+        b.apply_defaults()
+        args = dict(b.arguments)
+        xcalls.append(dict(args, file=getattr(args["alignment_file"], "filename", b"").decode() if hasattr(getattr(args["alignment_file"], "filename", None), "decode") else str(getattr(args["alignment_file"], "filename", ""))))
+        nv = len(args["locus"].variants)
+        return {args["samples"]: (rnp.empty((0, nv), dtype="U1"), rnp.empty((0, nv), dtype=rnp.int16))}
+
+    def rec_d(*a, **k):
+        b = sig_d.bind(*a, **k)
+        b.apply_defaults()
+        dcalls.append(dict(b.arguments))
+        return store["encode_read_distributions"](*a, **k)
+
+    bc.extract_read_variants, bc.encode_read_distributions = rec_x, rec_d
+    try:
+        with contextlib.redirect_stdout(io.StringIO()):
+            prog = mod.program.cli(cmd)
+            locus = next(iter(prog.loci()))
+            d = prog._locus_data(locus, prog.sample_bams)
+            prog.encode_sample_reads(d)
+        pairs = [(name, path) for s_ in prog.samples for name, path in prog.sample_bams[s_]]
+    finally:
+        bc.extract_read_variants, bc.encode_read_distributions = store["extract_read_variants"], store["encode_read_distributions"]
+    return want, xcalls, dcalls, pairs, cmd
+
+
+def _cli_problems(want, xcalls, dcalls, pairs):
+    bad = []
+    if len(xcalls) != len(pairs):
+        bad.append("%d pileups extracted for %d (sample, file) pairs" % (len(xcalls), len(pairs)))
+    for call, (name, path) in zip(xcalls, pairs):
+        if call["samples"] != name:
+            bad.append("pileup of %r extracted for sample %r" % (name, call["samples"]))
+        if os.path.basename(call["file"]) != os.path.basename(path):
+            bad.append("sample %r read from %s instead of %s" % (name, os.path.basename(call["file"]), os.path.basename(path)))
+        for k in ("min_quality", "skip_duplicates", "skip_qcfail", "skip_supplementary", "id"):
+            g, w = call[k], want[k]
+            same = (g == w) if isinstance(w, str) else ((isinstance(g, (bool, rnp.bool_)) and bool(g) == w) if isinstance(w, bool) else (not isinstance(g, bool) and g == w))
+            if not same:
+                bad.append("extract_read_variants gets %s=%r, the command line says %r" % (k, g, w))
+    for call in dcalls:
+        if abs(float(call["error_rate"]) - want["error_rate"]) > 1e-15:
+            bad.append("encode_read_distributions gets error_rate=%r, the command line says %r" % (call["error_rate"], want["error_rate"]))
+        if (call["quals"] is not None) != want["quals_used"]:
+            bad.append("base qualities %s although the command line says %s" % ("used" if call["quals"] is not None else "ignored", "use them" if want["quals_used"] else "ignore them"))
+    if not dcalls:
+        bad.append("encode_read_distributions never called")
+    return sorted(set(bad))
+
+
+def _run_cli_options(c, col):
+    site = "mchap.application.baseclass.program.encode_sample_reads"
+
+    def body(ctx):
+        return _cli_drive(E.load, c["prog"], lambda name, lo, hi: int(E.SymInt(E.fresh_int(ctx, name, lo, hi))))
+
+    first = True
+    for pr in E.explore(body, stats=col.stats):
+        if pr.exc is not None:
+            col.fail(site, "exception", shape=dict(prog=c["prog"]), witness=dict(exc=repr(pr.exc.__cause__ or pr.exc)), desc="%s raised %r" % (c["prog"], pr.exc.__cause__ or pr.exc))
+            continue
+        col.path()
+        if first:
+            col.reachable(pr.ctx)
+            first = False
+        want, xcalls, dcalls, pairs, cmd = pr.value
+        bad = _cli_problems(want, xcalls, dcalls, pairs)
+        if bad:
+            col.fail(site, "cli-option-wiring", shape=dict(prog=c["prog"]), witness=dict(options=[x for x in cmd if x.startswith("--") or x.replace(".", "").isdigit() or x == "ID"], problems=bad), desc="; ".join(bad)[:300])
+        else:
+            col.ok("every read-filter option of the command line reaches extract_read_variants / encode_read_distributions unchanged (%s; settings solver-enumerated)" % c["prog"])
 
 
 def weight(c):
@@ -213,7 +339,7 @@ def run_config(c, col):
     with prof:
         if c["group"] == "dists":
             E.cfg.concrete_floats = False
-        {"extract": _run_extract, "encode": _run_encode, "locus-ref": _run_locus_ref, "dists": _run_dists}[c["group"]](c, col)
+        {"extract": _run_extract, "encode": _run_encode, "locus-ref": _run_locus_ref, "dists": _run_dists, "cli-options": _run_cli_options}[c["group"]](c, col)
     col.functions |= set(prof.names())
     E.cfg.concrete_floats = False
 
@@ -588,6 +714,12 @@ def replay(v):
         return _replay_locus_ref(v)
     if c["group"] == "dists":
         return _replay_dists(v)
+    if c["group"] == "cli-options":
+        import importlib
+
+        want, xcalls, dcalls, pairs, cmd = _cli_drive(importlib.import_module, c["prog"], lambda name, lo, hi: int(m.get(name, lo)))
+        bad = _cli_problems(want, xcalls, dcalls, pairs)
+        return bool(bad), "real modules, mchap %s %s: %s" % (c["prog"], " ".join(x for x in cmd[2:] if x.startswith("--") and "bam" not in x), "; ".join(bad) or "all options arrive")
     if c["group"] != "extract":
         return _replay_encode(v)
     k, idf, want, mm, ns = c["k"], c["idf"], c["want"], c["mismatch"], c.get("ns", 2)
